@@ -275,9 +275,20 @@ def negIntLit (t : Token) : Except PErr Expr :=
   | some i => .ok (.lit (.long i))
   | none => .error .int
 
+/-- `p.memberAccessFollows()`: the token AFTER the current one is `.` or `[` (`peek (adv [])` is the EOF token,
+    whose text is empty) -/
+def memberFollows (ts : List Token) : Bool :=
+  (peek (adv ts)).text == "." || (peek (adv ts)).text == "["
+
+/-- the negative-literal special case of `p.unary()` applies at `ts` (after a final `-`): an INT token that is
+    not the receiver of a member access.  In `-5.foo` the minus negates the whole member expression
+    (Unary ::= '-' Member), so `5.foo` is left to `member` (repaired defect `negated-int-receiver`). -/
+def negLitAt (ts : List Token) : Bool :=
+  (peek ts).ty == .int && !memberFollows ts
+
 /-- `p.unary()` including the special case for negative literals -/
 def unary (E : EP) (n : Nat) (ts : List Token) : PR :=
-  if (unaryOps ts).1.getLast? == some true && (peek (unaryOps ts).2).ty == .int then
+  if (unaryOps ts).1.getLast? == some true && negLitAt (unaryOps ts).2 then
     bindP (some (negIntLit (peek (unaryOps ts).2))) fun e =>
       okP (applyOps (unaryOps ts).1.dropLast e, adv (unaryOps ts).2)
   else
